@@ -46,8 +46,8 @@ type echoCfg struct {
 	stallAt           int64         // driver-side writes block from this stream offset on until the write deadline (0 = none)
 	writeTimeout      time.Duration // ClusterConfig.WriteTimeout (0 = gocql's default)
 	timeoutLimit      int64         // gocql.TimeoutLimit for this scenario (0 = gocql's default: off)
-	nodeCloseAfter    int // node closes the data connection mid-frame after this many answers (-1 = none)
-	closeSessionAfter int // Session.Close is called concurrently after this many completed calls (-1 = at the end)
+	nodeCloseAfter    int           // node closes the data connection mid-frame after this many answers (-1 = none)
+	closeSessionAfter int           // Session.Close is called concurrently after this many completed calls (-1 = at the end)
 	intensity         int
 	reusePhase        int // sequential requests issued after the late answers were delivered
 	bigFrames         bool
@@ -63,33 +63,34 @@ type echoCall struct {
 }
 
 type echoResult struct {
-	outcomes      map[string]int
-	mismatches    []string
-	streamReuse   []string
-	badFrames     []string
-	dupTokens     []string
-	lateDelivered int64
-	lateReused    int64
-	never         int64
-	hits          map[string]int64
-	signature     uint64
-	closeReturned bool
+	outcomes               map[string]int
+	mismatches             []string
+	streamReuse            []string
+	badFrames              []string
+	dupTokens              []string
+	lateDelivered          int64
+	lateReused             int64
+	never                  int64
+	hits                   map[string]int64
+	signature              uint64
+	closeReturned          bool
 	connsClosedBeforeClose int
-	streamObs     *streamObs
-	calls         int64
-	cluster       *fakenode.Cluster
-	conservation  []string
-	recvStalls    []string
-	afterClose    []string
-	dataConns     []*fakenode.ServerConn
-	wireProblems  []wireProblem
-	byToken       map[string]string // token -> outcome class
-	preCancelled  map[string]bool
-	wireFrames    int64
-	wireBytes     int64
-	cutsInjected  int
-	partialTails  int
-	writes        map[string]writeObs // token -> what the writer told exec
+	streamObs              *streamObs
+	calls                  int64
+	cluster                *fakenode.Cluster
+	conservation           []string
+	recvStalls             []string
+	receiverSideRecord     bool // the byte streams were recorded by the peer of a real socket, not by the transport itself
+	afterClose             []string
+	dataConns              []*fakenode.ServerConn
+	wireProblems           []wireProblem
+	byToken                map[string]string // token -> outcome class
+	preCancelled           map[string]bool
+	wireFrames             int64
+	wireBytes              int64
+	cutsInjected           int
+	partialTails           int
+	writes                 map[string]writeObs // token -> what the writer told exec
 }
 
 type writeObs struct {
@@ -765,21 +766,39 @@ func echoConservation(sess *gocql.Session, cl *fakenode.Cluster) []string {
 // acknowledged writes are whole, cancelled-before-write calls left no bytes, nothing after a
 // short write.
 func echoWire(res *echoResult, cl *fakenode.Cluster) {
+	var streams []wireStream
+	for _, sc := range cl.AllConns() {
+		written, cut, cutOff, after := sc.Driver.Snapshot()
+		streams = append(streams, wireStream{idx: sc.Index, written: written, cut: cut, cutOff: cutOff, after: after, closed: sc.Driver.Closed})
+	}
+	echoWireStreams(res, streams)
+}
+
+// wireStream is everything one connection of the driver wrote, as recorded at the transport.
+type wireStream struct {
+	idx           int
+	written       []byte
+	cut           bool  // the transport returned a short write / write error at cutOff
+	cutOff, after int64 // bytes the transport accepted after that
+	closed        func() bool
+}
+
+func echoWireStreams(res *echoResult, streams []wireStream) {
 	seen := map[string]int{}
 	add := func(key, what string) {
 		if len(res.wireProblems) < 30 {
 			res.wireProblems = append(res.wireProblems, wireProblem{key, what})
 		}
 	}
-	for _, sc := range cl.AllConns() {
-		written, cut, cutOff, after := sc.Driver.Snapshot()
+	for _, sc := range streams {
+		written, cut, cutOff, after := sc.written, sc.cut, sc.cutOff, sc.after
 		res.wireBytes += int64(len(written))
 		kind := "direct"
 		if cut {
 			res.cutsInjected++
 		}
 		if after > 0 {
-			add("C07:bytes-after-short-write", fmt.Sprintf("connection #%d accepted %d more bytes after it had returned a short write at offset %d", sc.Index, after, cutOff))
+			add("C07:bytes-after-short-write", fmt.Sprintf("connection #%d accepted %d more bytes after it had returned a short write at offset %d", sc.idx, after, cutOff))
 		}
 		b := written
 		off := 0
@@ -789,16 +808,16 @@ func echoWire(res *echoResult, cl *fakenode.Cluster) {
 				// incomplete tail
 				res.partialTails++
 				deadline := time.Now().Add(2 * time.Second)
-				for !sc.Driver.Closed() && time.Now().Before(deadline) {
+				for !sc.closed() && time.Now().Before(deadline) {
 					time.Sleep(time.Millisecond)
 				}
-				if !sc.Driver.Closed() {
-					add("C07:partial-frame-on-open-connection", fmt.Sprintf("connection #%d: the stream ends in an incomplete frame at offset %d (%d stray bytes) but the driver did not close the connection", sc.Index, off, len(b)))
+				if !sc.closed() {
+					add("C07:partial-frame-on-open-connection", fmt.Sprintf("connection #%d: the stream ends in an incomplete frame at offset %d (%d stray bytes) but the driver did not close the connection", sc.idx, off, len(b)))
 				}
 				break
 			}
 			if h.Version < 1 || h.Version > 5 || h.Response || h.Length < 0 {
-				add("C07:not-a-frame-sequence:"+kind, fmt.Sprintf("connection #%d: bytes at offset %d are not a request frame header: %x", sc.Index, off, clip(b)))
+				add("C07:not-a-frame-sequence:"+kind, fmt.Sprintf("connection #%d: bytes at offset %d are not a request frame header: %x", sc.idx, off, clip(b)))
 				break
 			}
 			n := cqlref.HeaderSize(h.Version) + h.Length
@@ -806,7 +825,7 @@ func echoWire(res *echoResult, cl *fakenode.Cluster) {
 			if h.Flags&cqlref.FlagCompress == 0 {
 				rq, derr := cqlref.DecodeRequest(h, body)
 				if derr != nil {
-					add("C07:not-a-frame-sequence:"+kind, fmt.Sprintf("connection #%d: frame at offset %d does not decode (%v): interleaved or torn bytes", sc.Index, off, derr))
+					add("C07:not-a-frame-sequence:"+kind, fmt.Sprintf("connection #%d: frame at offset %d does not decode (%v): interleaved or torn bytes", sc.idx, off, derr))
 					break
 				}
 				if rq.Header.Op == cqlref.OpQuery && strings.HasPrefix(rq.Statement, "ECHO ") {
@@ -827,9 +846,8 @@ func echoWire(res *echoResult, cl *fakenode.Cluster) {
 		}
 	}
 	var all []string
-	for _, sc := range cl.AllConns() {
-		w, _, _, _ := sc.Driver.Snapshot()
-		all = append(all, string(w))
+	for _, sc := range streams {
+		all = append(all, string(sc.written))
 	}
 	onWire := func(tok string) bool {
 		for _, w := range all {
@@ -846,6 +864,9 @@ func echoWire(res *echoResult, cl *fakenode.Cluster) {
 	}
 	for tok, o := range res.writes {
 		switch {
+		case res.receiverSideRecord:
+			// recorded at the receiving end of a socket: a connection that was torn down may have swallowed
+			// bytes the kernel had accepted, so "reported written" cannot be held against this record
 		case o.err == "" && o.n == o.size && seen[tok] == 0:
 			add("C07:write-reported-ok-but-frame-missing", fmt.Sprintf("the writer reported that the %d-byte frame of request %s was written, but no complete frame for it is in the byte stream", o.size, tok))
 		case o.err != "" && o.n == 0 && onWire(tok):
@@ -853,6 +874,9 @@ func echoWire(res *echoResult, cl *fakenode.Cluster) {
 		}
 	}
 	for tok, cls := range res.byToken {
+		if res.receiverSideRecord && cls != "ok" {
+			continue
+		}
 		if (cls == "ok" || cls == "server-error" || cls == "timeout") && seen[tok] == 0 {
 			add("C07:acknowledged-write-missing", fmt.Sprintf("request %s ended with %q (its write was reported successful) but no complete frame for it is in the byte stream", tok, cls))
 		}
